@@ -2,11 +2,14 @@
 //   handles.hpp guarded.hpp guarded_opt.hpp shared_guarded.hpp shared_guarded_opt.hpp
 //   ordered_guarded.hpp atomic_guarded.hpp                 (model: coq/Model/WrapperModel.v)
 //
-// cfg   = flavour mutexkind enabled init throw_k...
+// cfg   = flavour mutexkind enabled init payloadkind throw_k...
 //   flavour   0 guarded  1 guarded_opt  2 shared_guarded  3 shared_guarded_opt  4 ordered_guarded  5 atomic_guarded
 //   mutexkind 0 mutex  1 timed_mutex  2 shared_mutex  3 shared_timed_mutex
 //   enabled   the enableLocking constructor argument of the _opt flavours (ignored by the others)
 //   init      initial payload value;   throw_k... : indices of the user-code invocations that throw (vs::plan())
+//   payloadkind 0: the wrapped type is vs::WPay (instrumented: every access is a window, copy / assignment are
+//             user code);  1: a plain `long` - its accesses are invisible, only the mutex operations, the
+//             functor calls of modify / read and K_INVOKE / K_RET remain in the trace
 // ops (first int = code, logged as the K_INVOKE value):
 //   0 Lock h  1 TryLock h  2 TryLockFor h  3 TryLockUntil h  4 LockShared h  5 TryLockShared h
 //   6 TryLockSharedFor h  7 TryLockSharedUntil h  8 ConstLock h   (result: 1 = handle is true, 0 = null handle)
@@ -43,37 +46,57 @@ namespace lg = gmlc::libguarded;
 using vs::WPay;
 constexpr int NSLOTS = 3;
 
+// access to the two payload kinds
+template<class P>
+struct Pay;
+template<>
+struct Pay<WPay> {
+    static long rd(const WPay& p) { return p.read(); }
+    static void wr(WPay& p, long v) { p.write(v); }
+    static long peek(const WPay& p) { return p.peek(); }
+    static void poke(WPay& p, long v) { p.v = v; }
+    static WPay mk(long v) { return WPay(v); }
+};
+template<>
+struct Pay<long> {
+    static long rd(const long& p) { return p; }
+    static void wr(long& p, long v) { p = v; }
+    static long peek(const long& p) { return p; }
+    static void poke(long& p, long v) { p = v; }
+    static long mk(long v) { return v; }
+};
+
 struct IWrap {
     virtual ~IWrap() = default;
     virtual long op(int tid, const std::vector<long>& o) = 0;
     virtual void final(std::vector<std::vector<long>>& out) = 0;
 };
 
-template<int FL, class M>
+template<int FL, class M, class P>
 struct WType;
-template<class M>
-struct WType<0, M> {
-    using type = lg::guarded<WPay, M>;
+template<class M, class P>
+struct WType<0, M, P> {
+    using type = lg::guarded<P, M>;
 };
-template<class M>
-struct WType<1, M> {
-    using type = lg::guarded_opt<WPay, M>;
+template<class M, class P>
+struct WType<1, M, P> {
+    using type = lg::guarded_opt<P, M>;
 };
-template<class M>
-struct WType<2, M> {
-    using type = lg::shared_guarded<WPay, M>;
+template<class M, class P>
+struct WType<2, M, P> {
+    using type = lg::shared_guarded<P, M>;
 };
-template<class M>
-struct WType<3, M> {
-    using type = lg::shared_guarded_opt<WPay, M>;
+template<class M, class P>
+struct WType<3, M, P> {
+    using type = lg::shared_guarded_opt<P, M>;
 };
-template<class M>
-struct WType<4, M> {
-    using type = lg::ordered_guarded<WPay, M>;
+template<class M, class P>
+struct WType<4, M, P> {
+    using type = lg::ordered_guarded<P, M>;
 };
-template<class M>
-struct WType<5, M> {
-    using type = lg::atomic_guarded<WPay, M>;
+template<class M, class P>
+struct WType<5, M, P> {
+    using type = lg::atomic_guarded<P, M>;
 };
 
 template<class M>
@@ -84,11 +107,12 @@ long sharers_of(const M&)
 inline long sharers_of(const vstd::shared_mutex& m) { return (long)m.sharers.size(); }
 inline long sharers_of(const vstd::shared_timed_mutex& m) { return (long)m.sharers.size(); }
 
-template<int FL, class M>
+template<int FL, class M, class P>
 struct Wrap: IWrap {
-    using W = typename WType<FL, M>::type;
-    using XH = lg::lock_handle<WPay, M>;
-    using SH = lg::shared_lock_handle<WPay, M>;
+    using W = typename WType<FL, M, P>::type;
+    using XH = lg::lock_handle<P, M>;
+    using SH = lg::shared_lock_handle<P, M>;
+    using PA = Pay<P>;
     static constexpr bool isOpt = (FL == 1 || FL == 3);
     static constexpr bool hasX = (FL <= 3);
     static constexpr bool hasS = (FL >= 2 && FL <= 4);
@@ -107,14 +131,14 @@ struct Wrap: IWrap {
     };
     std::unique_ptr<W> w;
     std::vector<std::array<Slot, NSLOTS>> slots;
-    std::vector<WPay> expected;  // compare_exchange's in/out argument: one per thread, stable address
+    std::vector<P> expected;  // compare_exchange's in/out argument: one per thread, stable address
 
     static W* build(bool en, long init)
     {
         if constexpr (isOpt) {
-            return new W(en, WPay(init));
+            return new W(en, PA::mk(init));
         } else {
-            return new W(WPay(init));
+            return new W(PA::mk(init));
         }
     }
     Wrap(const vs::Case& c, bool en, long init): w(build(en, init)), slots(c.progs.size()), expected(c.progs.size()) {}
@@ -229,15 +253,15 @@ struct Wrap: IWrap {
                     vs::fault(nullptr, 9);
                     return -1;
                 }
-                if (sl.s) return (*sl.s)->read();
+                if (sl.s) return PA::rd(**sl.s);
                 XH& hx = *sl.x;
-                if (acc == 0) return hx->read();
+                if (acc == 0) return PA::rd(*hx);
                 if (acc == 1) {
-                    long x = hx->read();
-                    hx->write(x + 1);
+                    long x = PA::rd(*hx);
+                    PA::wr(*hx, x + 1);
                     return x + 1;
                 }
-                hx->write(v);
+                PA::wr(*hx, v);
                 return 0;
             }
             case 14:
@@ -245,19 +269,19 @@ struct Wrap: IWrap {
                 return my[h].truth() ? 1 : 0;
             case 15:
                 if constexpr (hasLS) {
-                    WPay r = w->load();
-                    return r.peek();
+                    P r = w->load();
+                    return PA::peek(r);
                 }
                 return -1;
             case 16:
                 if constexpr (hasLS) {
-                    w->store(WPay(arg(1)));
+                    w->store(PA::mk(arg(1)));
                     return 0;
                 }
                 return -1;
             case 17:
                 if constexpr (hasLS) {
-                    *w = WPay(arg(1));
+                    *w = PA::mk(arg(1));
                     return 0;
                 }
                 return -1;
@@ -265,17 +289,17 @@ struct Wrap: IWrap {
                 if constexpr (hasFn) {
                     const long fid = arg(1);
                     if (fid % 2 == 0) {
-                        w->modify([fid](WPay& p) {
+                        w->modify([fid](P& p) {
                             vs::user_call(fid);
-                            long x = p.read();
-                            p.write(x + 1);
+                            long x = PA::rd(p);
+                            PA::wr(p, x + 1);
                         });
                         return 0;
                     }
-                    return w->modify([fid](WPay& p) -> long {
+                    return w->modify([fid](P& p) -> long {
                         vs::user_call(fid);
-                        long x = p.read();
-                        p.write(x + 1);
+                        long x = PA::rd(p);
+                        PA::wr(p, x + 1);
                         return x + 1;
                     });
                 }
@@ -284,36 +308,36 @@ struct Wrap: IWrap {
                 if constexpr (hasFn) {
                     const long fid = arg(1);
                     if (fid % 2 == 0) {
-                        static_cast<const W&>(*w).read([fid](const WPay& p) {
+                        static_cast<const W&>(*w).read([fid](const P& p) {
                             vs::user_call(fid);
-                            (void)p.read();
+                            (void)PA::rd(p);
                         });
                         return 0;
                     }
-                    return static_cast<const W&>(*w).read([fid](const WPay& p) -> long {
+                    return static_cast<const W&>(*w).read([fid](const P& p) -> long {
                         vs::user_call(fid);
-                        return p.read();
+                        return PA::rd(p);
                     });
                 }
                 return -1;
             case 20:
                 if constexpr (hasXc) {
-                    WPay old = w->exchange(WPay(arg(1)));
-                    return old.peek();
+                    P old = w->exchange(PA::mk(arg(1)));
+                    return PA::peek(old);
                 }
                 return -1;
             case 21:
                 if constexpr (hasXc) {
-                    WPay& e = expected[tid];
-                    e.v = arg(1);
-                    bool ok = w->compare_exchange(e, WPay(arg(2)));
-                    return 2 * e.peek() + (ok ? 1 : 0);
+                    P& e = expected[tid];
+                    PA::poke(e, arg(1));
+                    bool ok = w->compare_exchange(e, PA::mk(arg(2)));
+                    return 2 * PA::peek(e) + (ok ? 1 : 0);
                 }
                 return -1;
             case 22:
                 if constexpr (hasCast) {
-                    WPay r(static_cast<const W&>(*w).operator WPay());
-                    return r.peek();
+                    P r(static_cast<const W&>(*w).operator P());
+                    return PA::peek(r);
                 }
                 return -1;
             default: return -1;
@@ -321,19 +345,24 @@ struct Wrap: IWrap {
     }
     void final(std::vector<std::vector<long>>& out) override
     {
-        out.push_back({w->m_obj.peek(), (long)w->m_mutex.owner, sharers_of(w->m_mutex), vs::plan().faults, vs::plan().calls});
+        out.push_back({PA::peek(w->m_obj), (long)w->m_mutex.owner, sharers_of(w->m_mutex), vs::plan().faults, vs::plan().calls});
     }
 };
 
-template<int FL>
+template<int FL, class P>
 IWrap* make_k(const vs::Case& c, long mk, bool en, long init)
 {
     switch (mk) {
-        case 0: return new Wrap<FL, vstd::mutex>(c, en, init);
-        case 1: return new Wrap<FL, vstd::timed_mutex>(c, en, init);
-        case 2: return new Wrap<FL, vstd::shared_mutex>(c, en, init);
-        default: return new Wrap<FL, vstd::shared_timed_mutex>(c, en, init);
+        case 0: return new Wrap<FL, vstd::mutex, P>(c, en, init);
+        case 1: return new Wrap<FL, vstd::timed_mutex, P>(c, en, init);
+        case 2: return new Wrap<FL, vstd::shared_mutex, P>(c, en, init);
+        default: return new Wrap<FL, vstd::shared_timed_mutex, P>(c, en, init);
     }
+}
+template<int FL>
+IWrap* make_p(const vs::Case& c, long mk, bool en, long init, bool plain)
+{
+    return plain ? make_k<FL, long>(c, mk, en, init) : make_k<FL, WPay>(c, mk, en, init);
 }
 
 struct WrapperComp {
@@ -342,16 +371,17 @@ struct WrapperComp {
     {
         auto cf = [&](size_t i) { return i < c.cfg.size() ? c.cfg[i] : 0L; };
         std::vector<long> throws;
-        for (size_t i = 4; i < c.cfg.size(); ++i) throws.push_back(c.cfg[i]);
+        for (size_t i = 5; i < c.cfg.size(); ++i) throws.push_back(c.cfg[i]);
         vs::plan().reset(throws);
         const bool en = cf(2) != 0;
+        const bool plain = cf(4) != 0;
         switch (cf(0)) {
-            case 0: w.reset(make_k<0>(c, cf(1), en, cf(3))); break;
-            case 1: w.reset(make_k<1>(c, cf(1), en, cf(3))); break;
-            case 2: w.reset(make_k<2>(c, cf(1), en, cf(3))); break;
-            case 3: w.reset(make_k<3>(c, cf(1), en, cf(3))); break;
-            case 4: w.reset(make_k<4>(c, cf(1), en, cf(3))); break;
-            default: w.reset(make_k<5>(c, cf(1), en, cf(3))); break;
+            case 0: w.reset(make_p<0>(c, cf(1), en, cf(3), plain)); break;
+            case 1: w.reset(make_p<1>(c, cf(1), en, cf(3), plain)); break;
+            case 2: w.reset(make_p<2>(c, cf(1), en, cf(3), plain)); break;
+            case 3: w.reset(make_p<3>(c, cf(1), en, cf(3), plain)); break;
+            case 4: w.reset(make_p<4>(c, cf(1), en, cf(3), plain)); break;
+            default: w.reset(make_p<5>(c, cf(1), en, cf(3), plain)); break;
         }
     }
     long op(int tid, const std::vector<long>& o) { return w->op(tid, o); }
